@@ -1,8 +1,8 @@
 SPECIFICATION Spec
 CONSTANTS
-  Fams <- ThoroughFams
+  Fams <- MutantFams
   D_SwapDelete = TRUE
   Cap = 2
-  M_DepthBuffersDisjoint = TRUE
-INVARIANTS AllInv
+  M_DepthBuffersDisjoint = FALSE
+INVARIANTS MutantInv
 CHECK_DEADLOCK FALSE
